@@ -125,3 +125,19 @@ Theorem C26_durlit_old_refuted :
   let e := EDurLit false 1001000000 in
   parse oc_old o_all [] (print oc_old e) = Ok (EDurLit false 1000000000).
 Proof. vm_compute. reflexivity. Qed.
+
+(* the code between 08a939fd28 and "fix: ... round to milliseconds" (346b90dbb7):
+   model.Duration(math.Round(Val*1e9)) still lost the last millisecond beyond 2^53 ns: `200d3ms`
+   (17280000003000000 ns) printed as `200d2ms` (oracle value computed by that code) *)
+Theorem C26_durlit_old2_refuted :
+  let oc_old := mkOrc [] [(17280000003000000, 17280000002000000)] [] in
+  let e := EDurLit false 17280000003000000 in
+  parse oc_old o_all [] (print oc_old e) = Ok (EDurLit false 17280000002000000).
+Proof. vm_compute. reflexivity. Qed.
+
+(* finding inf-literal-power-lhs: `Inf ^ 2` is BinaryExpr(POW, +Inf, 2); the literal prints as
+   "+Inf", and `+Inf ^ 2` parses as +(Inf ^ 2): a UnaryExpr is added at every round trip *)
+Theorem C26_inf_power_refuted :
+  let e := EBin BPow false None (ENum inf_bits) (ENum 4611686018427387904) in
+  parse orc_id o_all [] (print orc_id e) = Ok (EUn false e).
+Proof. vm_compute. reflexivity. Qed.
